@@ -48,8 +48,14 @@ func callNF(st *state, args []string) []string {
 	} else {
 		dump = canon.Dump(p10)
 	}
-	if err != nil {
-		return []string{resErr(err), "nf " + dump}
+	var raw []string
+	if p9.Version == 9 {
+		raw = rawFaithful(&p9, "netflowv9")
+	} else {
+		raw = rawFaithful(&p10, "ipfix")
 	}
-	return []string{"res ok", "nf " + dump}
+	if err != nil {
+		return append([]string{resErr(err), "nf " + dump}, raw...)
+	}
+	return append([]string{"res ok", "nf " + dump}, raw...)
 }
